@@ -1620,7 +1620,8 @@ pub fn get_random_module(&self, source: &mut GenerationSource) -> (r: Result<VfT
         &&& forall|i: int| 0 <= i < tail.len() ==> Generator::tail_op(#[trigger] tail[i].0, o.state.version)
         // C11: opcode-count knobs
         &&& t.len() == nbody && o.min_opcodes <= nbody
-        &&& (o.max_opcodes > o.min_opcodes ==> nbody < o.max_opcodes) && (o.max_opcodes <= o.min_opcodes ==> nbody == o.min_opcodes)
+        // (the statement says min <= T <= max; today's code draws T < max, which is not the property's business)
+        &&& (o.max_opcodes > o.min_opcodes ==> nbody <= o.max_opcodes) && (o.max_opcodes <= o.min_opcodes ==> nbody == o.min_opcodes)
         &&& tail.len() <= 2 * nbody + 1
         // C05: header
         &&& (v >= 2 ==> out.len() >= 2 && out[0] == 0x80 && out[1] == v)
